@@ -377,6 +377,12 @@ inline Report run_sharded(const Options& opt, const std::string& label, const Bo
     const uint64_t cidx = slots[s].idx; const bool inCase = slots[s].in_case != 0;
     std::string desc = slots[s].desc;
     std::string err = head_of_file(errp, 6000);
+    if ((!inCase || cidx == 0) && WIFSIGNALED(status) && WTERMSIG(status) == SIGKILL) {
+      // SIGKILL comes from outside the process (the kernel's OOM killer under memory pressure): not a property of any case. The shard's
+      // results are lost; the run goes on with the other shards and reports itself as not exhaustive.
+      fprintf(stderr, "HARNESS-NOTE: worker %d was killed from outside (SIGKILL) between cases; its shard is dropped, the run is not exhaustive\n", s);
+      ri.crash_cap_hit = true; total.count("shards_lost_to_external_kill"); S.finished = true; --remaining; continue;
+    }
     if (!inCase || cidx == 0) {
       fprintf(stderr, "HARNESS-ERROR: worker %d died outside a case (status %d)\n%s\n", s, status, err.c_str());
       exit(2);
